@@ -250,6 +250,13 @@ def run(ctx, prog, res):
         escapes = flow.reach_avoiding(ins, 0, rets, puts)
         r8.check(not escapes, {"fn": "insert", "returns": len(rets), "every_return_after_the_put": True}, "C14.R8:must-put",
                  "Schedule::insert can return without having put the inserted range into the result (an early way out): a range added later is then dropped instead of overriding what it covers", lib.where_of(ins))
-    r8.floor(2)
+    # ... and what was there before reaches the result only cut against the inserted range: no way out returns the
+    # receiver itself (its vector edited in place keeps neighbours that overlap the inserted range)
+    sh_ret = flow.shape(ins, 0, depth=3)
+    alts_ret = [a.strip() for a in (sh_ret[4:-1].split(" | ") if sh_ret.startswith("alt(") else [sh_ret])]
+    in_place = [a for a in alts_ret if re.fullmatch(r"p1|\*p1|Schedule\{inner: p1\.inner\}", a)]
+    r8.check(not in_place, {"fn": "insert", "returns": [a[:60] for a in alts_ret], "receiver_returned_as_is": False}, "C14.R8:in-place",
+             "Schedule::insert has a way out that returns the receiver itself (%s): its periods were not cut against the inserted range, so a neighbour that overlaps it stays - overlapping periods, and the earlier kind wins on the overlap" % in_place, lib.where_of(ins))
+    r8.floor(3)
 
     witness.run_doctests(ctx, prog, res, "C14.W", "outside the crate a Schedule cannot be built from raw ranges nor its vector reached; twins compile", "c14", floor=4)
